@@ -186,5 +186,222 @@ theorem construct_shape {T : Tables} {C : BodyCodec β} {na : Char → Bool} {ma
     | error e => rw [hr] at hok; cases hok
     | ok m => exact ⟨st', m, rfl⟩
 
+/-! ## Additions after review 3: dispatch + descriptor list + raw parts (`recvRun`), constructor arguments -/
+
+theorem msgsOf_append (a b : List Effect) : msgsOf (a ++ b) = msgsOf a ++ msgsOf b := by
+  induction a with
+  | nil => rfl
+  | cons e t ih => cases e <;> simp [msgsOf, ih]
+
+/-- One delivery as `recvRun` records it when `_receivedFDs = fds`. -/
+def callOf (T : Tables) (C : BodyCodec β) (fds : List PyVal) (raw : Bytes) :
+    Except PyErr (Option Hook × Msg.Msg β) :=
+  (handleFrame T C fds raw).map (fun r => (r.1, r.2.1))
+
+/-- `rawDBusMessageReceived` on this frame returns normally and leaves `_receivedFDs` as it was. -/
+def Quiet (T : Tables) (C : BodyCodec β) (fds : List PyVal) (raw : Bytes) : Prop :=
+  ∃ h m', handleFrame T C fds raw = .ok (h, m', fds)
+
+/-- Over effects all of whose frames are handled quietly, the deliveries of one read are the effects themselves. -/
+theorem deliverEffects_quiet (T : Tables) (C : BodyCodec β) (fds : List PyVal) (effs : List Effect)
+    (h : ∀ raw ∈ msgsOf effs, Quiet T C fds raw) :
+    deliverEffects T C fds effs = ⟨effs, (msgsOf effs).map (callOf T C fds), fds, none⟩ := by
+  induction effs with
+  | nil => rfl
+  | cons e t ih =>
+    cases e with
+    | msg raw =>
+      obtain ⟨hk, m', hq⟩ := h raw (by simp [msgsOf])
+      have iht := ih (fun r hr => h r (by simp [msgsOf, hr]))
+      simp only [deliverEffects, hq, iht, msgsOf, List.map_cons, callOf, Except.map]
+    | line l =>
+      have iht := ih (fun r hr => h r (by simpa [msgsOf] using hr))
+      simp only [deliverEffects, iht, msgsOf]
+    | lose =>
+      have iht := ih (fun r hr => h r (by simpa [msgsOf] using hr))
+      simp only [deliverEffects, iht, msgsOf]
+    | crash =>
+      have iht := ih (fun r hr => h r (by simpa [msgsOf] using hr))
+      simp only [deliverEffects, iht, msgsOf]
+
+/-- When every frame the framing delivers is handled quietly, `recvRun` is `run` followed by `callOf` on the
+delivered frames (no exception, `_receivedFDs` unchanged). -/
+theorem recvRun_quiet {α : Type} (T : Tables) (C : BodyCodec β) (A : Auth α) (fds : List PyVal) (reads : List Bytes) :
+    ∀ (s : St α), (∀ raw ∈ msgsOf (run A s reads).2, Quiet T C fds raw) →
+    recvRun T C A s fds reads = ((run A s reads).1, (run A s reads).2,
+      (msgsOf (run A s reads).2).map (callOf T C fds), fds) := by
+  induction reads with
+  | nil => intro s _; rfl
+  | cons d ds ih =>
+    intro s h
+    have hrun : run A s (d :: ds) =
+        ((run A (step A s d).1 ds).1, (step A s d).2 ++ (run A (step A s d).1 ds).2) := rfl
+    rw [hrun] at h ⊢
+    simp only [msgsOf_append, List.mem_append] at h
+    have h1 := deliverEffects_quiet T C fds (step A s d).2 (fun r hr => h r (Or.inl hr))
+    have h2 := ih (step A s d).1 (fun r hr => h r (Or.inr hr))
+    simp only [recvRun, h1, h2, msgsOf_append, List.map_append]
+
+/-- `rawDBusMessageReceived` on the frame of `x`, with `_receivedFDs = fds`, calls the hook of the class of `x`
+with a message whose complete observation is the expected one, and leaves `_receivedFDs` as it was. -/
+def HandsOver (T : Tables) (C : BodyCodec β) (fds : List PyVal) (x : Sent β) : Prop :=
+  ∃ m' : Msg.Msg β, handleFrame T C fds x.msg.raw = .ok (some (Hook.ofClass x.msg.cls), m', fds) ∧
+    handedOf T (some (Hook.ofClass x.msg.cls), m') = x.handed T
+
+theorem handsOver_of_parse (T : Tables) (hdisp : ∀ cls, hookOfType (T.messageType cls) = some (Hook.ofClass cls))
+    (C : BodyCodec β) (fds : List PyVal) (x : Sent β) (m' : Msg.Msg β)
+    (hnofd : x.msg.attrs .unixFds = .none)
+    (hp : parseMessage T C x.msg.raw (some fds) = .ok m')
+    (h1 : m'.cls = x.msg.cls) (h5 : ∀ a, m'.attrs a = Msg.plain (x.msg.attrs a))
+    (hv : m'.view T = x.expected T) (hof : m'.otherFlags = 0)
+    (hh : m'.rawHeader = x.msg.rawHeader) (hpd : m'.rawPadding = x.msg.rawPadding)
+    (hb : m'.rawBody = x.msg.rawBody) : HandsOver T C fds x := by
+  have hu : m'.attrs .unixFds = .none := by rw [h5, hnofd]; rfl
+  refine ⟨m', ?_, ?_⟩
+  · simp only [handleFrame, hp, hu, fdsAfter, h1, hdisp]
+  · simp only [handedOf, Sent.handed, hv, hof, hh, hpd, hb]
+
+theorem handsOver_of_sentOK (T : Tables) (hT : T.OK)
+    (hdisp : ∀ cls, hookOfType (T.messageType cls) = some (Hook.ofClass cls))
+    (C : BodyCodec β) (na : Char → Bool) (maxLen : Nat) (fds : List PyVal)
+    (x : Sent β) (h : SentOK T C na maxLen x) (hfds : x.fds = some fds) (hnofd : x.msg.attrs .unixFds = .none) :
+    HandsOver T C fds x := by
+  obtain ⟨st, st', c, hs, hsig, hc, hC⟩ := h
+  obtain ⟨m', p1, p2, p3, p4, p5, p6, p7, p8, p9, p10, p11, _⟩ :=
+    Msg.Main.parse_marshal T hT C na maxLen st st' c x.msg hs hsig hc x.fds x.decoded hC
+  rw [hfds] at p1
+  exact handsOver_of_parse T hdisp C fds x m' hnofd p1 p2 p6 (view_eq_expected T x m' p2 p3 p4 p5 p6 p7) p11 p8 p9 p10
+
+/-- The no-body case of `SentC01` is an instance of `SentOK` (the codec hypothesis is vacuous). -/
+theorem sentOK_of_noBody (T : Tables) (hT : T.OK) (C : BodyCodec β) (na : Char → Bool) (maxLen : Nat) (x : Sent β)
+    (st st' : Msg.St) (c : Call β) (hs : 1 ≤ st.nextSerial) (hc : construct T C na maxLen st c = (st', .ok x.msg))
+    (hno : c.signature = none ∨ c.signature = some []) : SentOK T C na maxLen x := by
+  obtain ⟨sm, hb⟩ := Msg.construct_ok T hT C na maxLen st st' c x.msg hc
+  have hsigattr : x.msg.attrs .signature = Msg.strAttr c.signature := by
+    rw [hb.attrs .signature (by decide), Msg.Main.pre_signature]
+  refine ⟨st, st', c, hs, ?_, hc, ?_⟩
+  · intro sg hsg
+    rcases hno with h0 | h0 <;> rw [h0] at hsg
+    · cases hsg
+    · simp only [Option.some.injEq] at hsg; subst hsg; rfl
+  · intro sg hsg hne
+    rw [hsigattr] at hsg
+    rcases hno with h0 | h0 <;> rw [h0] at hsg
+    · cases hsg
+    · simp only [Msg.strAttr, PyVal.str.injEq, true_and] at hsg; exact absurd hsg.symm hne
+
+theorem handsOver_of_sentC01 (T : Tables) (hT : T.OK)
+    (hdisp : ∀ cls, hookOfType (T.messageType cls) = some (Hook.ofClass cls))
+    (na : Char → Bool) (maxLen : Nat) (fuel : Nat) (fds : List PyVal)
+    (x : Sent PyVal) (h : SentC01 T na maxLen fuel x) (hfds : x.fds = some fds)
+    (hnofd : x.msg.attrs .unixFds = .none) : HandsOver T (wireCodec fuel) fds x := by
+  obtain ⟨st, st', c, hs, hc, hcase⟩ := h
+  rcases hcase with hno | ⟨ts, pv, items, vs, fdl, bs, hfdl, hdec, hsig, hne, hbody, hoob, hts, hitems, hrep, hkeys,
+    henc, hfuel⟩
+  · exact handsOver_of_sentOK T hT hdisp (wireCodec fuel) na maxLen fds x
+      (sentOK_of_noBody T hT (wireCodec fuel) na maxLen x st st' c hs hc hno) hfds hnofd
+  · obtain ⟨sm, hb⟩ := Msg.construct_ok T hT (wireCodec fuel) na maxLen st st' c x.msg hc
+    have hsigattr : x.msg.attrs .signature = Msg.strAttr c.signature := by
+      rw [hb.attrs .signature (by decide), Msg.Main.pre_signature]
+    obtain ⟨m', p1, p2, p3, p4, p5, p6, p7, p8, p9, _, p11, p12, p13, _⟩ :=
+      Msg.parse_marshal_c01_gen T hT na maxLen st st' c x.msg hs ts pv items vs fdl bs fuel hsig hne hbody hoob hts
+        hitems hrep hkeys henc hfuel hc
+    have htr : Msg.truthy (x.msg.attrs .signature) = true := by
+      rw [hsigattr, hsig]
+      cases hr : renderAll ts with
+      | nil => exact absurd hr hne
+      | cons ch cs => simp [Msg.strAttr, Msg.truthy]
+    have hfd : fdl = fds := by rw [hfdl] at hfds; exact Option.some.inj hfds
+    rw [hfd] at p1
+    refine handsOver_of_parse T hdisp (wireCodec fuel) fds x m' hnofd p1 p2 p6
+      (view_eq_expected T x m' p2 p3 p4 p5 p6 ?_) p13 p11 p12 (by rw [p8, p9])
+    rw [htr, if_pos rfl, p7, hdec]
+
+/-- The frames of the sent messages, handled one after the other with `_receivedFDs = fds`: every one reaches the
+hook of its class with the expected observation. -/
+theorem calls_sent (T : Tables) (C : BodyCodec β) (fds : List PyVal) (xs : List (Sent β))
+    (h : ∀ x ∈ xs, HandsOver T C fds x) :
+    ((xs.map (·.msg.raw)).map (callOf T C fds)).map (Except.map (handedOf T))
+      = xs.map (fun x => .ok (x.handed T)) := by
+  induction xs with
+  | nil => rfl
+  | cons x t ih =>
+    obtain ⟨m', hq, hv⟩ := h x (by simp)
+    have iht := ih (fun y hy => h y (by simp [hy]))
+    simp only [List.map_cons, callOf, hq, Except.map, hv, iht]
+
+theorem quiet_of_handsOver (T : Tables) (C : BodyCodec β) (fds : List PyVal) (x : Sent β) (h : HandsOver T C fds x) :
+    Quiet T C fds x.msg.raw := by
+  obtain ⟨m', hq, _⟩ := h
+  exact ⟨_, m', hq⟩
+
+/-! ### The expected content, from the constructor arguments -/
+
+theorem body_of_strAttr {γ : Type} (o : Option (List Char)) (d : γ) :
+    (if Msg.truthy (Msg.strAttr o) then some d else none) =
+      (match Msg.strAttr o with
+       | .str _ (_ :: _) => some d
+       | _ => none) := by
+  cases o with
+  | none => rfl
+  | some s => cases s <;> rfl
+
+/-- C03 `constructed_from_arguments` composed: the expected content of a sent message (view of the constructed
+object) IS the content stated from the arguments of the constructor call that built it. -/
+theorem expected_eq_expectedView (T : Tables) (hT : T.OK)
+    (htypes : T.messageType .methodCall = 1 ∧ T.messageType .methodReturn = 2 ∧ T.messageType .error = 3 ∧
+      T.messageType .signal = 4)
+    (C : BodyCodec β) (na : Char → Bool) (maxLen : Nat) (y : SentCall β) (st' : Msg.St)
+    (hc : construct T C na maxLen ⟨y.counter⟩ y.call = (st', .ok y.sent.msg)) :
+    y.sent.expected T = y.expectedView := by
+  obtain ⟨sm, hb⟩ := Msg.construct_ok T hT C na maxLen ⟨y.counter⟩ st' y.call y.sent.msg hc
+  obtain ⟨f1, f2, f3, f4, _, _⟩ := Msg.Main.constructed_from_arguments T hT C na maxLen ⟨y.counter⟩ st' y.call y.sent.msg hc
+  obtain ⟨t1, t2, t3, t4⟩ := htypes
+  have hser : y.sent.msg.serial = y.counter := hb.serial
+  cases hcall : y.call with
+  | methodCall a =>
+    obtain ⟨c1, c2, c3, c4, c5, c6, c7, c8, c9, c10, c11⟩ := f1 a hcall
+    simp only [Sent.expected, SentCall.expectedView, Msg.Msg.view, hcall, callType, callFlags, c1, c2, c3, t1, hser, c8]
+    congr 1
+    · funext x; cases x <;> simp [callAttr, c4, c5, c6, c7, c8, c9, c10, c11, Msg.plain]
+    · exact body_of_strAttr a.signature _
+  | methodReturn a =>
+    obtain ⟨c1, c2, c3, c4, c5, c6, c7, c8, c9, c10, c11⟩ := f2 a hcall
+    simp only [Sent.expected, SentCall.expectedView, Msg.Msg.view, hcall, callType, callFlags, c1, c2, c3, t2, hser, c6]
+    congr 1
+    · funext x; cases x <;> simp [callAttr, c4, c5, c6, c7, c8, c9, c10, c11, Msg.plain]
+    · exact body_of_strAttr a.signature _
+  | error a =>
+    obtain ⟨c1, c2, c3, c4, c5, c6, c7, c8, c9, c10, c11⟩ := f3 a hcall
+    simp only [Sent.expected, SentCall.expectedView, Msg.Msg.view, hcall, callType, callFlags, c1, c2, c3, t3, hser, c7]
+    congr 1
+    · funext x; cases x <;> simp [callAttr, c4, c5, c6, c7, c8, c9, c10, c11, Msg.plain]
+    · exact body_of_strAttr a.signature _
+  | signal a =>
+    obtain ⟨c1, c2, c3, c4, c5, c6, c7, c8, c9, c10, c11⟩ := f4 a hcall
+    simp only [Sent.expected, SentCall.expectedView, Msg.Msg.view, hcall, callType, callFlags, c1, c2, c3, t4, hser, c8]
+    congr 1
+    · funext x; cases x <;> simp [callAttr, c4, c5, c6, c7, c8, c9, c10, c11, Msg.plain]
+    · exact body_of_strAttr a.signature _
+
+/-- The premises of `parse_marshal_c01` / `parse_marshal_no_body` for the constructor call `y.call` made when the
+counter stood at `y.counter`: `SentC01` with the call and the counter exposed. -/
+def SentCallC01 (T : Tables) (na : Char → Bool) (maxLen : Nat) (fuel : Nat) (y : SentCall PyVal) : Prop :=
+  ∃ (st' : Msg.St), 1 ≤ y.counter ∧
+    construct T (wireCodec fuel) na maxLen ⟨y.counter⟩ y.call = (st', .ok y.sent.msg) ∧
+    ((y.call.signature = none ∨ y.call.signature = some []) ∨
+     ∃ (ts : List Ty) (pv : PyVal) (items : List PyVal) (vs : List Val) (fdl : List PyVal) (bs : Bytes),
+       y.sent.fds = some fdl ∧ y.sent.decoded = .list (Code.plainList items) ∧
+       y.call.signature = some (renderAll ts) ∧ renderAll ts ≠ [] ∧ y.call.body = some pv ∧
+       (y.call.oob = none ∨ y.call.oob = some []) ∧ allWF ts = true ∧ Code.topItems pv = .ok items ∧
+       Code.RepFields fdl vs y.call.oob.isSome ts items 0 (if y.call.oob.isSome then fdl.length else 0) ∧
+       Code.KeysOKList items ∧
+       Txdbus.Spec.encodeAll Code.genAlign (Txdbus.endianOf true) ts vs 0 = some bs ∧ depthAll vs ≤ fuel)
+
+theorem sentC01_of_sentCallC01 (T : Tables) (na : Char → Bool) (maxLen : Nat) (fuel : Nat) (y : SentCall PyVal)
+    (h : SentCallC01 T na maxLen fuel y) : SentC01 T na maxLen fuel y.sent := by
+  obtain ⟨st', hs, hc, hcase⟩ := h
+  exact ⟨⟨y.counter⟩, st', y.call, hs, hc, hcase⟩
+
 end WithMsg
 end Txdbus.Proto
